@@ -331,7 +331,7 @@ BASE_ENV = {
 }
 
 
-def execute(rundir, argv, cwd, tz, plan_text, timeout=60.0, binary=None, keep_plan=False):
+def execute(rundir, argv, cwd, tz, plan_text, timeout=60.0, binary=None, keep_plan=False, config_text=None):
     """Run the binary once under the shim. rundir is a private scratch directory."""
     plan_path = os.path.join(rundir, "plan")
     log_path = os.path.join(rundir, "log")
@@ -342,6 +342,11 @@ def execute(rundir, argv, cwd, tz, plan_text, timeout=60.0, binary=None, keep_pl
     # parses it on later ones, which shifts the per-process hash seeds (found by the C17.C prefix law)
     shutil.rmtree(home, ignore_errors=True)
     os.makedirs(home)
+    if config_text is not None:
+        # the user's configuration file (directories::ProjectDirs -> ~/.config/fselect/config.toml)
+        os.makedirs(os.path.join(home, ".config", "fselect"))
+        with open(os.path.join(home, ".config", "fselect", "config.toml"), "w") as f:
+            f.write(config_text)
     with open(plan_path, "w") as f:
         f.write(plan_text)
     env = dict(BASE_ENV)
@@ -402,14 +407,14 @@ class Sandbox:
         materialise(world, self.root)
         self.nexec = 0
 
-    def run(self, argv, plan=None, cwd="", tz="UTC", timeout=60.0):
+    def run(self, argv, plan=None, cwd="", tz="UTC", timeout=60.0, config=None):
         plan = plan or {}
         text = compile_plan(plan, self.world, self.root)
         self.nexec += 1
-        res = execute(self.base, argv, os.path.join(self.root, cwd), tz, text, timeout=timeout)
+        res = execute(self.base, argv, os.path.join(self.root, cwd), tz, text, timeout=timeout, config_text=config)
         if res.sim == "TIMEOUT":
             # backstop only: reproduce once before believing it (DESIGN 4.2)
-            res2 = execute(self.base, argv, os.path.join(self.root, cwd), tz, text, timeout=timeout)
+            res2 = execute(self.base, argv, os.path.join(self.root, cwd), tz, text, timeout=timeout, config_text=config)
             if res2.sim != "TIMEOUT":
                 raise HarnessError("unreproduced wall-clock timeout")
             return res2
